@@ -1,12 +1,12 @@
 SPECIFICATION Spec
 CONSTANTS
   Dialect = "code"
-  TokLeaves = {"a", ","}
+  TokLeaves = {"a"}
   DocDepth = 3
   SubDepth = 0
   Wide = FALSE
   Slim = FALSE
   Alphabet = {"a", ","}
-  MaxInput = 3
+  MaxInput = 2
 INVARIANTS TypeOK StackDistinct Consumes Bounded NoHang RejectSound Export
 
